@@ -4,6 +4,7 @@ import (
 	"fmt"
 	"go/token"
 	"go/types"
+	"strings"
 
 	"golang.org/x/tools/go/ssa"
 )
@@ -47,4 +48,63 @@ func dumpGuardSites(c *Ctx) {
 			}
 		}
 	}
+}
+
+func dumpWriteSites(c *Ctx) {
+	seen := map[*ssa.Function]bool{}
+	var fns []*ssa.Function
+	for _, rc := range []*Reach{c.REval, c.RCompile, c.RReg, c.RStr} {
+		for _, f := range srcFuncsIn(rc) {
+			if !seen[f] {
+				seen[f] = true
+				fns = append(fns, f)
+			}
+		}
+	}
+	sortFns(fns)
+	nStore, nMap := 0, 0
+	for _, f := range fns {
+		for _, ins := range instrsIn(f) {
+			switch ins := ins.(type) {
+			case *ssa.Store:
+				switch a := ins.Addr.(type) {
+				case *ssa.Alloc:
+					continue
+				case *ssa.IndexAddr:
+					if al, ok := a.X.(*ssa.Alloc); ok && al.Comment == "varargs" {
+						continue
+					}
+				case *ssa.FieldAddr:
+					if _, ok := a.X.(*ssa.Alloc); ok {
+						continue
+					}
+				}
+				nStore++
+				fmt.Printf("STORE %s %s addr=%T %s\n", shortFn(f), c.W.Pos(ins.Pos()), ins.Addr, ins.Addr)
+			case *ssa.MapUpdate:
+				nMap++
+				fmt.Printf("MAPUPD %s %s map=%T %s\n", shortFn(f), c.W.Pos(ins.Pos()), ins.Map, ins.Map)
+			case ssa.CallInstruction:
+				cc := ins.Common()
+				if b, ok := cc.Value.(*ssa.Builtin); ok {
+					switch b.Name() {
+					case "append", "copy", "delete", "clear":
+						fmt.Printf("BUILTIN %s %s %s arg0=%T %s\n", b.Name(), shortFn(f), c.W.Pos(ins.Pos()), cc.Args[0], cc.Args[0])
+					}
+					continue
+				}
+				callee := cc.StaticCallee()
+				if callee == nil || c.G.InSc[callee] {
+					continue
+				}
+				pp := calleePkgPath(callee)
+				n := callee.Name()
+				if pp == "reflect" && (strings.HasPrefix(n, "Set") || n == "Append" || n == "AppendSlice" || n == "Copy" || n == "Swapper" || n == "Grow" || n == "Clear") ||
+					pp == "sort" || pp == "math/rand" && n == "Shuffle" || pp == "encoding/json" && (n == "Unmarshal" || n == "Decode") {
+					fmt.Printf("EXTMUT %s.%s %s %s args=%v\n", pp, n, shortFn(f), c.W.Pos(ins.Pos()), cc.Args)
+				}
+			}
+		}
+	}
+	fmt.Println("stores", nStore, "mapupdates", nMap, "functions", len(fns))
 }
